@@ -25,21 +25,24 @@ class Pt:
 class Deep:
   p: Pt
   q: Bits8
+class PIfc(Interface):
+  def construct(s):
+    s.pi = InPort(8); s.po = OutPort(8)
 '''
 
 SKEL = '''
 class G_{k}(Component):
   def construct(s):
-    s.i = InPort(8); s.o = OutPort(8); s.o2 = OutPort(8); s.w = Wire(8); s.t0 = Wire(8); s.t1 = Wire(8); s.t2 = Wire(8); s.t3 = Wire(8)
+    s.i = InPort(8); s.o = OutPort(8); s.o2 = OutPort(8); s.w = Wire(8); s.t0 = Wire(8); s.t1 = Wire(8); s.t2 = Wire(8); s.t3 = Wire(8); s.ifc = PIfc()
 {G_DECL}{G}
 class Leaf_{k}(Component):
   def construct(s):
-    s.i = InPort(8); s.o = OutPort(8); s.o2 = OutPort(8); s.w = Wire(8); s.t0 = Wire(8); s.t1 = Wire(8); s.t2 = Wire(8); s.t3 = Wire(8)
+    s.i = InPort(8); s.o = OutPort(8); s.o2 = OutPort(8); s.w = Wire(8); s.t0 = Wire(8); s.t1 = Wire(8); s.t2 = Wire(8); s.t3 = Wire(8); s.ifc = PIfc()
     s.g = G_{k}()
 {Leaf_DECL}{Leaf}
 class Mid_{k}(Component):
   def construct(s):
-    s.i = InPort(8); s.i2 = InPort(8); s.o = OutPort(8); s.w = Wire(8); s.t = Wire(8); s.st = Wire(Pt); s.si = InPort(Pt); s.dp = Wire(Deep)
+    s.i = InPort(8); s.i2 = InPort(8); s.o = OutPort(8); s.w = Wire(8); s.t = Wire(8); s.st = Wire(Pt); s.si = InPort(Pt); s.dp = Wire(Deep); s.ifc = PIfc()
     s.a = Leaf_{k}(); s.b = Leaf_{k}()
 {Mid_DECL}{Mid}
 class Top_{k}(Component):
@@ -89,6 +92,25 @@ for pos, pre in POS.items():
          Mid=[f"@update\ndef blk(): {wsig} @= s.i", "@update\ndef other(): s.t @= s.i + 1"])
     case('port-rule/write-ff', f"ff-write {kind} of {pos}", exp,
          Mid=[f"@update_ff\ndef blk(): {wsig} <<= s.i", "@update\ndef other(): s.t @= s.i + 1"])
+
+# ports that sit inside an INTERFACE of the component obey the same rules as its plain ports
+for pos, pre in POS.items():
+  for kind, attr in (('InPort', 'ifc.pi'), ('OutPort', 'ifc.po')):
+    sig = f"{pre}.{attr}"
+    case('port-rule/read', f"read interface {kind} of {pos}", None,
+         Mid=[f"@update\ndef blk(): s.t @= {sig}", "@update\ndef other(): s.o @= s.i + 1"])
+    ok_write = (kind == 'InPort' and pos == 'child') or (kind == 'OutPort' and pos == 'own')
+    case('port-rule/write', f"write interface {kind} of {pos}", None if ok_write else 'SignalTypeError',
+         Mid=[f"@update\ndef blk(): {sig} @= s.i", "@update\ndef other(): s.t @= s.i + 1"])
+    case('port-rule/write-ff', f"ff-write interface {kind} of {pos}", None if ok_write else 'SignalTypeError',
+         Mid=[f"@update_ff\ndef blk(): {sig} <<= s.i", "@update\ndef other(): s.t @= s.i + 1"])
+# ... and for connections: a parent drives a child's interface InPort and reads its interface OutPort; the reverse is illegal
+case('connect/interface', 'parent wire drives child interface InPort, child interface OutPort drives parent wire', None,
+     Mid=["connect(s.a.ifc.pi, s.i)", "connect(s.t, s.a.ifc.po)"], Leaf=["@update\ndef leaf_ifc(): s.ifc.po @= s.ifc.pi"])
+case('connect/interface', 'own interface OutPort driven by a net from the own InPort', None,
+     Mid=["connect(s.ifc.po, s.i)"])
+case('connect/interface', 'block-written parent wire connected to a child interface OutPort that the child drives', 'MultiWriterError|SignalTypeError|InvalidConnectionError',
+     Mid=["@update\ndef drv(): s.t @= s.i", "connect(s.a.ifc.po, s.t)"], Leaf=["@update\ndef leaf_ifc(): s.ifc.po @= s.i"])
 
 # the rule is per (block, signal): the owner reading its own wire does not make an outside read legal
 OWNER_READS_LEAF = ["@update\ndef leaf_self(): s.o2 @= s.w"]
